@@ -75,6 +75,8 @@ class Interp(ExprMixin, CallMixin, AnyMixin):
         self.depth = 0
         self.frames = []
         self.functions_entered = set()
+        self.ext_models["typing.TypeVar"] = lambda it_, a, k, n: Ref(z3.Int(fresh_name("typevar")))
+        self.ext_models["typing.ParamSpec"] = lambda it_, a, k, n: Ref(z3.Int(fresh_name("paramspec")))
         self.any_tags = {}
         self._any_init()
         self.lines_executed = set()
@@ -693,6 +695,128 @@ class Interp(ExprMixin, CallMixin, AnyMixin):
         res.functions_entered = set(self.functions_entered)
         return res
 
+
+    def run_pair(self, harness_a, harness_b, compare, name="pair", max_paths=200000, prefixes=None, time_limit=None):
+        """Aligned co-execution (product proof): every path of A is replayed on B under the *same* decisions and the
+        same fresh-symbol numbering; compare(interp, info_a, info_b, path_b) states the relational obligations."""
+        work = [list(p) for p in (prefixes if prefixes is not None else [[]])]
+        res = RunResult(name)
+        t0 = time.time()
+        n = 0
+        while work:
+            prefix = work.pop()
+            n += 1
+            if n > max_paths or (time_limit and time.time() - t0 > time_limit):
+                res.errors.append("budget exceeded")
+                break
+            infos = []
+            for side, harness in (("A", harness_a), ("B", harness_b)):
+                reset_names()
+                path = Path(self.solver, prefix if side == "A" else infos[0]["taken"], f"{name}#{n}{side}")
+                path.quantified = getattr(self, "quantified", False)
+                path.check_obligations = False
+                if side == "B":
+                    path.stop_at = len(infos[0]["taken"])
+                self.path = path
+                self.depth = 0
+                self.frames = []
+                end = "done"
+                out = None
+                try:
+                    out = harness(self)
+                except PathEnd as e:
+                    end = f"end:{e}"
+                except Unsupported as e:
+                    end = "unsupported"
+                    res.unsupported.append(f"{side}: {e} [path {prefix}]")
+                except PyRaise as e:
+                    end = "unsupported"
+                    res.unsupported.append(f"{side}: uncaught PyRaise {e.exc!r}")
+                infos.append({"taken": list(path.taken), "alts": list(path.alts), "pc": list(path.pc), "end": end,
+                              "trace": list(path.trace), "out": out, "path": path})
+            a, b = infos
+            pb = b["path"]
+            pb.check_obligations = True
+            compare(self, a, b, pb)
+            res.paths += 1
+            res.ends[a["end"]] = res.ends.get(a["end"], 0) + 1
+            res.obligations.extend(pb.obligations)
+            res.covers |= pb.covers
+            work.extend(a["alts"])
+        res.wall = time.time() - t0
+        res.solver_checks = self.solver.checks
+        res.solver_time = self.solver.time
+        res.functions_entered = set(self.functions_entered)
+        return res
+
+    def run_product(self, harness_a, harness_b, compare, name="product", max_paths=200000):
+        """Product proof under a shared environment oracle: both sides are explored completely; two paths are paired when
+        they made the same environment choices (so the k-th environment answer is the same symbol on both sides) and their
+        path conditions are jointly satisfiable; compare(interp, a, b, path) states the relational obligations per pair.
+        Coverage: every path of either side must be paired at least once."""
+        res = RunResult(name)
+        t0 = time.time()
+        sides = []
+        for side, harness in (("A", harness_a), ("B", harness_b)):
+            infos = []
+            work = [[]]
+            while work:
+                prefix = work.pop()
+                reset_names()
+                path = Path(self.solver, prefix, f"{name}/{side}#{len(infos)+1}")
+                path.quantified = getattr(self, "quantified", False)
+                path.check_obligations = False
+                self.path = path
+                self.depth = 0
+                self.frames = []
+                end, out = "done", None
+                try:
+                    out = harness(self)
+                except PathEnd as e:
+                    end = f"end:{e}"
+                except Unsupported as e:
+                    end = "unsupported"
+                    res.unsupported.append(f"{side}: {e} [path {prefix}]")
+                except PyRaise as e:
+                    end = "unsupported"
+                    res.unsupported.append(f"{side}: uncaught PyRaise {e.exc!r}")
+                infos.append({"taken": list(path.taken), "pc": list(path.pc), "end": end, "trace": list(path.trace), "out": out,
+                              "choices": tuple(path.choices), "paired": 0, "id": path.path_id})
+                work.extend(path.alts)
+                if len(infos) > max_paths:
+                    res.errors.append("path budget exceeded")
+                    break
+            sides.append(infos)
+        A, B = sides
+        res.paths = len(A) + len(B)
+        by_key = {}
+        for b in B:
+            by_key.setdefault(b["choices"], []).append(b)
+        chk = Path(self.solver, [], f"{name}/pairs")
+        pairs = 0
+        for a in A:
+            for b in by_key.get(a["choices"], []):
+                r, _, _ = self.solver.check(a["pc"] + b["pc"])
+                if r == z3.unsat:
+                    continue
+                a["paired"] += 1
+                b["paired"] += 1
+                pairs += 1
+                p = Path(self.solver, [], f"{a['id']}x{b['id']}")
+                for f in a["pc"] + b["pc"]:
+                    p._add_pc(f)
+                compare(self, a, b, p)
+                res.obligations.extend(p.obligations)
+                res.covers |= p.covers
+        unpaired = [x["id"] for x in A + B if x["paired"] == 0 and x["end"] != "unsupported"]
+        chk.oblige(f"{name}/every-path-of-either-side-has-a-counterpart", not unpaired, detail=unpaired[:10])
+        res.obligations.extend(chk.obligations)
+        res.ends["pairs"] = pairs
+        res.wall = time.time() - t0
+        res.solver_checks = self.solver.checks
+        res.solver_time = self.solver.time
+        res.functions_entered = set(self.functions_entered)
+        return res
 
     def frontier(self, harness, depth):
         """prefixes partitioning the path space: every complete path shorter than `depth` decisions, and
